@@ -122,6 +122,10 @@ where
             v.last_unlocked = self.time_provider.now();
         }
     }
+    #[cfg(feature = "verif_hooks")]
+    fn verif_stamp<V>(v: &CacheEntry<V>) -> Option<Instant> {
+        Some(v.last_unlocked)
+    }
 }
 
 // The LRUCache actually stores <K, CacheEntry<V>> instead of <K, V> so that we can
@@ -642,6 +646,16 @@ where
         OnEvictFn: FnMut(Vec<<Self as Lockable<K, V>>::OwnedGuard>) -> F,
     {
         LockableMapImpl::try_lock_async(Arc::clone(self), key, limit).await
+    }
+
+    /// Verification hook: snapshot of the internal state.
+    #[cfg(feature = "verif_hooks")]
+    #[doc(hidden)]
+    pub fn verif_snapshot(&self) -> crate::verif_hooks::Snapshot<K, V>
+    where
+        V: Clone,
+    {
+        self.map_impl.verif_snapshot()
     }
 
     /// Lock a key and return a guard with any potential map entry for that key.
